@@ -75,7 +75,25 @@ pub fn eval_case(ops: &[Op], drv: Option<&mut Drv>, pool: &Pool, rng: &mut Rng, 
     for d in std::mem::take(&mut built.diffs) {
         out.model_v.push(("outcome".into(), d));
     }
-    let mut disp = built.builder.take().unwrap().build();
+    let disp = built.builder.take().unwrap().build();
+    // without thread-local systems the dispatcher may be used in its sendable form
+    // (`SendDispatcher::setup` / `dispose`, send_dispatcher.rs)
+    enum AnyDisp {
+        D(Dispatcher<'static, 'static>),
+        S(SendDispatcher<'static>),
+    }
+    let has_tl = ops.iter().any(|o| matches!(o, Op::Tl { .. }));
+    let mut disp = if !has_tl && rng.chance(30) {
+        match disp.try_into_sendable() {
+            Ok(s) => AnyDisp::S(s),
+            Err(d) => {
+                out.impl_v.push(("C12".into(), "try_into_sendable refused a dispatcher without thread-local systems".into()));
+                AnyDisp::D(d)
+            }
+        }
+    } else {
+        AnyDisp::D(disp)
+    };
     let (mut hooks, mut creates) = (vec![], vec![]);
     expected(&built, None, ops, &mut hooks, &mut creates);
     hooks.sort();
@@ -94,7 +112,10 @@ pub fn eval_case(ops: &[Op], drv: Option<&mut Drv>, pool: &Pool, rng: &mut Rng, 
     for round in 0..rounds {
         let before = world_map(&world);
         shared.lifecycle.lock().unwrap().clear();
-        let r = catch_unwind(AssertUnwindSafe(|| disp.setup(&mut world)));
+        let r = catch_unwind(AssertUnwindSafe(|| match &mut disp {
+            AnyDisp::D(d) => d.setup(&mut world),
+            AnyDisp::S(d) => d.setup(&mut world),
+        }));
         if let Err(p) = r {
             out.impl_v.push(("C13".into(), format!("setup panicked: {}", panic_message(&p))));
             return out;
@@ -174,7 +195,10 @@ pub fn eval_case(ops: &[Op], drv: Option<&mut Drv>, pool: &Pool, rng: &mut Rng, 
     // dispose
     let before = world_map(&world);
     shared.lifecycle.lock().unwrap().clear();
-    let r = catch_unwind(AssertUnwindSafe(move || disp.dispose(&mut world)));
+    let r = catch_unwind(AssertUnwindSafe(move || match disp {
+        AnyDisp::D(d) => d.dispose(&mut world),
+        AnyDisp::S(d) => d.dispose(&mut world),
+    }));
     if let Err(p) = r {
         out.impl_v.push(("C13".into(), format!("dispose panicked: {}", panic_message(&p))));
         return out;
